@@ -1004,6 +1004,67 @@ func runC20(c *Ctx) {
 			}
 		}
 	}
+	if len(appends) == 1 && !first {
+		// … or it is result k of a package-local function (locate the body, then insert) every return of which gives
+		// element [0] of a list for that result, or nil
+		if se, ok := appends[0].Fun.(*ast.SelectorExpr); ok {
+			if rid, ok := ast.Unparen(se.X).(*ast.Ident); ok {
+				ast.Inspect(ins.Body, func(n ast.Node) bool {
+					as, ok := n.(*ast.AssignStmt)
+					if !ok || len(as.Rhs) != 1 || len(as.Lhs) < 2 {
+						return true
+					}
+					call, ok := ast.Unparen(as.Rhs[0]).(*ast.CallExpr)
+					if !ok {
+						return true
+					}
+					fn := calleeOf(info, call)
+					if fn == nil || fn.Pkg() != p.Types {
+						return true
+					}
+					for k, l := range as.Lhs {
+						lid, ok := l.(*ast.Ident)
+						if !ok || info.ObjectOf(lid) != info.ObjectOf(rid) {
+							continue
+						}
+						for _, sfd := range allFuncDecls(p) {
+							if info.Defs[sfd.Name] != types.Object(fn) || sfd.Body == nil {
+								continue
+							}
+							nret, allFirst := 0, true
+							ast.Inspect(sfd.Body, func(m ast.Node) bool {
+								if _, isLit := m.(*ast.FuncLit); isLit {
+									return false
+								}
+								ret, ok := m.(*ast.ReturnStmt)
+								if !ok {
+									return true
+								}
+								ret = explicitReturn(info, ret)
+								if k >= len(ret.Results) {
+									allFirst = false
+									return true
+								}
+								r := unfold(p, sfd, ret.Results[k], 0)
+								if id, ok := ast.Unparen(r).(*ast.Ident); ok && id.Name == "nil" {
+									return true
+								}
+								nret++
+								if ix, ok := ast.Unparen(r).(*ast.IndexExpr); !ok || types.ExprString(ix.Index) != "0" {
+									allFirst = false
+								}
+								return true
+							})
+							if nret > 0 && allFirst {
+								first = true
+							}
+						}
+					}
+					return true
+				})
+			}
+		}
+	}
 	c.check(len(appends) == 1 && !inLoop && first, "C20.R5", ikey+"|single-append-to-first-body", c.pos(ins.Pos()), "one AppendChild on the first body node, outside loops",
 		fmt.Sprintf("the inserter no longer appends exactly one node to the first body element (AppendChild calls: %d, in a loop: %v, on element [0]: %v)", len(appends), inLoop, first))
 	// failure paths return the original body
